@@ -1,0 +1,27 @@
+//go:build verif
+
+package contexttags
+
+// Contracts for the deductive verifier in /verif (comment-only file; see /verif/DESIGN.md).
+
+//@ type withContext invariant self.cause != nil && self.tags != nil
+//@ method (*withContext).Error
+//@   props C10
+//@   ensures result == msg(self.cause)
+//@ method (*withContext).Cause
+//@   props C07 C10 C14
+//@   ensures result == self.cause
+//@ method (*withContext).Unwrap
+//@   props C07 C10 C14
+//@   ensures result == self.cause
+
+//@ func WithContextTags
+//@   props C10 C07
+//@   ensures err == nil ==> result == nil
+
+//@ func decodeWithContext
+//@   props C05 C01 C11
+//@   requires cause != nil
+//@   ensures !typeis(payload, *errorspb.TagsPayload) ==> result == nil
+//@   ensures result != nil ==> typeis(result, *withContext) && result.(*withContext).cause == cause && result.(*withContext).redactedTags == redactedTags
+//@   loop 1: invariant b != nil
